@@ -4,6 +4,8 @@ from __future__ import annotations
 import asyncio
 import json
 
+import anyio
+
 import lib
 from lib import sx, call
 
@@ -622,6 +624,103 @@ async def run_real(cases):
     return out
 
 
+# --------------------------------------------------------------------------- #
+# Overlapping dispatch: several requests inside handlers at the same time
+# --------------------------------------------------------------------------- #
+async def _overlap_run(n, order, kinds, nested):
+    """n requests dispatched concurrently on ONE server; request k's tool/resource handler suspends until released; they are
+    released in `order`.  kinds[k] in {"tool", "tool-raises", "resource", "unknown-tool", "list"}.  With `nested`, request 0's tool
+    re-enters handle_message with an inner request before it suspends.  Returns [(request id, response id | None | 'raised')]."""
+    import anyio as _anyio
+    from chuk_mcp.server.server import MCPServer
+    from chuk_mcp.protocol.messages.json_rpc_message import JSONRPCRequest
+    srv = MCPServer("overlap")
+    ph = srv.protocol_handler
+    gates = [_anyio.Event() for _ in range(n)]
+    inner = []
+
+    def mk_tool(k, raises):
+        async def tool(**kw):
+            if nested and k == 0:
+                r = await ph.handle_message(JSONRPCRequest(id="inner-%d" % k, method="tools/list"))
+                inner.append(("inner-%d" % k, getattr(r[0], "id", None) if isinstance(r, tuple) and r[0] is not None else None))
+            await gates[k].wait()
+            if raises:
+                raise RuntimeError("late failure")
+            return "done-%d" % k
+        return tool
+
+    def mk_res(k):
+        async def res():
+            await gates[k].wait()
+            return "content-%d" % k
+        return res
+
+    reqs = []
+    ids = [100 + k if k % 2 else "r%d" % k for k in range(n)]
+    for k in range(n):
+        kind = kinds[k]
+        if kind in ("tool", "tool-raises"):
+            srv.register_tool("t%d" % k, mk_tool(k, kind == "tool-raises"), {"type": "object"})
+            reqs.append(JSONRPCRequest(id=ids[k], method="tools/call", params={"name": "t%d" % k, "arguments": {}}))
+        elif kind == "resource":
+            srv.register_resource("res://%d" % k, mk_res(k))
+            reqs.append(JSONRPCRequest(id=ids[k], method="resources/read", params={"uri": "res://%d" % k}))
+        elif kind == "unknown-tool":
+            reqs.append(JSONRPCRequest(id=ids[k], method="tools/call", params={"name": "nope", "arguments": {}}))
+            gates[k].set()
+        else:
+            reqs.append(JSONRPCRequest(id=ids[k], method="tools/list"))
+            gates[k].set()
+    got = [None] * n
+
+    async def one(k):
+        try:
+            r = await ph.handle_message(reqs[k])
+            resp = r[0] if isinstance(r, tuple) and len(r) == 2 else None
+            got[k] = getattr(resp, "id", None) if resp is not None else None
+        except Exception:               # noqa: BLE001
+            got[k] = "raised"
+
+    async with _anyio.create_task_group() as tg:
+        for k in range(n):
+            tg.start_soon(one, k)
+            await _anyio.sleep(0)       # request k is inside its handler before request k+1 arrives
+        for k in order:
+            gates[k].set()
+            await _anyio.sleep(0)
+            await _anyio.sleep(0)
+    return list(zip(ids, got)) + inner
+
+
+def check_overlap(ctx):
+    import itertools
+    kinds_all = ["tool", "tool-raises", "resource", "unknown-tool", "list"]
+    rng = ctx.rng
+    scen = []
+    for n in (2, 3):
+        for order in itertools.permutations(range(n)):
+            for nested in (False, True):
+                for _ in range(ctx.budget(3, 12)):
+                    kinds = [rng.choice(kinds_all[:3]) if k < 2 else rng.choice(kinds_all) for k in range(n)]
+                    scen.append((n, list(order), kinds, nested))
+    for n, order, kinds, nested in scen:
+        case = {"overlapping-dispatch": {"requests": n, "release-order": order, "kinds": kinds, "nested": nested}}
+        ctx.case(case, nontrivial=True)
+        ctx.count("overlap:requests=%d" % n)
+        ctx.count("overlap:" + ("nested" if nested else "flat"))
+        pairs = anyio.run(_overlap_run, n, order, kinds, nested)
+        for rid, got in pairs:
+            ctx.spec_total += 1
+            if got == "raised":
+                ctx.spec_violation("overlapping-dispatch:raised", case, f"request {rid!r}: handle_message raised")
+            elif got is None:
+                ctx.spec_violation("overlapping-dispatch:no-response", case, f"request {rid!r} got no response")
+            elif got != rid or type(got) is not type(rid):
+                ctx.spec_violation("overlapping-dispatch:response-carries-another-id", case,
+                                   f"request {rid!r} was answered with id {got!r}; all: {pairs}")
+
+
 def abstract_msg(case):
     if case["how"] == "batch":
         return "0"
@@ -761,6 +860,7 @@ def run(ctx):
     if ctx.broken_obligations:
         ctx.escalated = True
     explore(ctx, drv)
+    check_overlap(ctx)
     if ctx.corr_mismatch and not ctx.escalated and not ctx.spec_fail:
         ctx.escalated = True
         explore(ctx, drv)
